@@ -1155,12 +1155,42 @@ func (tt *TermTable) Cmp(op Op, a, b *Term) *Term {
 			}
 		}
 	}
+	// constant < x / constant <= x where x's range ends below the constant
+	if (op == OpBVUlt || op == OpBVUle) && a.IsConst() {
+		if n := leadingZeroBits(b); n > 0 && b.W-n < 64 {
+			max := mask(b.W - n)
+			if op == OpBVUlt && a.Val >= max || op == OpBVUle && a.Val > max {
+				return tt.False
+			}
+		}
+	}
 	return tt.mk(&Term{Op: op, W: 0, Args: []*Term{a, b}})
 }
 
 // leadingZeroBits returns a lower bound on the number of known-zero top bits.
-func leadingZeroBits(a *Term) int {
+func leadingZeroBits(a *Term) int { return lzBits(a, 48) }
+
+func lzBits(a *Term, depth int) int {
+	if depth == 0 {
+		return 0
+	}
+	leadingZeroBits := func(t *Term) int { return lzBits(t, depth-1) }
 	switch a.Op {
+	case OpBVXor, OpBVOr:
+		x := leadingZeroBits(a.Args[0])
+		if x == 0 {
+			return 0
+		}
+		if y := leadingZeroBits(a.Args[1]); y < x {
+			return y
+		}
+		return x
+	case OpBVAnd:
+		x, y := leadingZeroBits(a.Args[0]), leadingZeroBits(a.Args[1])
+		if x < y {
+			return y
+		}
+		return x
 	case OpConst:
 		if a.W <= 64 {
 			return a.W - (64 - bits.LeadingZeros64(a.Val))
